@@ -314,12 +314,9 @@ fn schema_ok(types: &[u8]) -> bool {
 fn fits_row(types: &[u8], row: &[OwnedValue]) -> bool {
     types.len() == row.len() && types.iter().zip(row).all(|(t, v)| fits(*t, v)) && total_var(types, row) < 65536
 }
-/// the recorded defect classes (same definition as Model/Record.v known_class); only used to
+/// the recorded defect class (same definition as Model/Record.v known_class); only used to
 /// label search-mode output and to steer the generators
 fn known_class(types: &[u8], row: &[OwnedValue]) -> u32 {
-    let total_fixed: usize = types.iter().map(|t| fixed_size(*t).unwrap_or(0)).sum();
-    if total_fixed == 0 && total_var(types, row) == 0 && row.iter().any(|v| *v != OwnedValue::Null) { return 1; }
-    if types.iter().zip(row).any(|(t, v)| *t == 4 && *v != OwnedValue::Null) { return 2; }
     if types.iter().zip(row).any(|(t, v)| *t == 21 && matches!(v, OwnedValue::Blob(b) if is_toast(b))) { return 3; }
     0
 }
@@ -347,6 +344,24 @@ fn rand_f64(rng: &mut Rng) -> f64 {
         6 => f64::from_bits(0x7FF0_0000_0000_0001 + rng.below(1 << 40)), // NaN payloads
         7 => rng.range(-1000, 1000) as f64 / 8.0,
         _ => f64::from_bits(rng.next()),
+    }
+}
+/// f64 values that exercise `as f32`: exact f32 values (normal, subnormal, special), halfway
+/// and near-halfway points, the overflow and underflow thresholds, arbitrary f64
+fn rand_f64_near_f32(rng: &mut Rng) -> f64 {
+    let base = f32::from_bits(rand_f32_bits(rng)) as f64;
+    let bits = base.to_bits();
+    match rng.below(10) {
+        0 => base,
+        1 => f64::from_bits(bits.wrapping_add(1 << 28)),                 // exactly halfway to the next f32
+        2 => f64::from_bits(bits.wrapping_add((1 << 28) + 1)),
+        3 => f64::from_bits(bits.wrapping_add((1 << 28) - 1)),
+        4 => f64::from_bits(bits.wrapping_add(rng.below(1 << 29))),
+        5 => *rng.pick(&[3.4028234663852886e38, 3.4028235677973366e38, 3.4028235677973362e38, 3.402823669209385e38, 1e39, -1e39,
+                         1.1754943508222875e-38, 1.401298464324817e-45, 7.006492321624085e-46, 7.00649232162409e-46, 1e-46, 5e-324, 2.2250738585072014e-308]),
+        6 => f64::from_bits((rng.range(860, 900) as u64) << 52 | rng.next() >> 12),   // f32 subnormal range
+        7 => f64::from_bits(0x7FF0_0000_0000_0001 + rng.below(1 << 51)),
+        _ => rand_f64(rng),
     }
 }
 fn rand_f32_bits(rng: &mut Rng) -> u32 {
@@ -453,10 +468,12 @@ fn rand_types(rng: &mut Rng, n: usize, var_pct: u64) -> Vec<u8> {
         else { *rng.pick(&FIXED_CODES) }
     }).collect()
 }
-/// a fitting row; Float4 columns stay NULL unless `float4`; toast-shaped blobs only if `toasty`
-fn rand_fit_row(rng: &mut Rng, types: &[u8], null_pct: u64, maxvar: usize, float4: bool, toasty: bool) -> Vec<OwnedValue> {
+/// a fitting row (`anyfloat`: Float4 columns may also get f64 values that are not exact f32
+/// values - these do not fit); toast-shaped blobs only if `toasty`
+fn rand_fit_row(rng: &mut Rng, types: &[u8], null_pct: u64, maxvar: usize, anyfloat: bool, toasty: bool) -> Vec<OwnedValue> {
     types.iter().map(|t| {
-        if is_range(*t) || rng.below(100) < null_pct || (*t == 4 && !float4) { OwnedValue::Null }
+        if is_range(*t) || rng.below(100) < null_pct { OwnedValue::Null }
+        else if *t == 4 && anyfloat && rng.chance(1, 2) { OwnedValue::Float(rand_f64_near_f32(rng)) }
         else if *t == 21 && toasty && rng.chance(1, 2) { OwnedValue::Blob(toast_ptr(rng)) }
         else { rand_fit(rng, *t, maxvar, toasty) }
     }).collect()
@@ -486,7 +503,8 @@ fn gen_row_case(rng: &mut Rng, kind: &'static str) -> Gen {
             let mut t = rand_types(rng, n, 20);
             let k = rng.below(n as u64) as usize;
             t[k] = 4;
-            let r = rand_fit_row(rng, &t, 10, 16, true, false);
+            let any = rng.chance(1, 2);
+            let r = rand_fit_row(rng, &t, 10, 16, any, false);
             (t, r)
         }
         "toast_blob" => {
